@@ -34,6 +34,7 @@ def Kind.kids : Kind → List Nat
   | .enable c => [c]
   | .disable c => [c]
   | .action _ c => [c]
+  | .state _ c => [c]
 
 /-- A hidden `internal::must< Rule >` node. -/
 def isMustNode (g : Grammar) (m : Nat) : Bool :=
@@ -106,6 +107,7 @@ def Kind.covered : Kind → Bool
   | .enable _ => true
   | .disable _ => true
   | .action _ _ => true
+  | .state _ _ => true
   | _ => false
 
 /-- Every node of the table has a kind with traits (implied by `problems (abstract g) = 0`, because
@@ -431,6 +433,11 @@ theorem kinds_sound (hg : cx.g = g) (hwf : WF g) (hwrap : ∀ i nd, cx.g[i]? = s
     simp only [Kind.kids, List.mem_singleton, forall_eq] at hkids hlt'
     have := ih f (Nat.le_refl _) _ c b hu.single hkids
     exact kind_action cx this.1 this.2
+  | state d c =>
+    simp only [traitOf] at hu
+    simp only [Kind.kids, List.mem_singleton, forall_eq] at hkids hlt'
+    have := ih f (Nat.le_refl _) _ c b hu.single hkids
+    exact kind_state cx this.1 this.2
   | ifMust dflt cond mn =>
     simp only [traitOf] at hu
     simp only [Kind.linksOK] at hlinks
